@@ -48,6 +48,9 @@ def c07_phases(ctx):
         groups.append(walk_group("c07/%s/3lvl" % alg, alg, [(4, 2), (1, 2), (2, 2)], [0, 15, 16, 63], [24, 55]))
         groups.append(walk_group("c07/%s/h5w4" % alg, alg, [(4, 5)], [0, 17, 31], [16, 56]))
         groups.append(walk_group("c07/%s/h5h2" % alg, alg, [(2, 5), (4, 2)], [3, 4, 127], [31]))
+        # every leaf of a NON-top tree of height 5 (authentication paths of every shape below the top level)
+        if not quick or alg in ("sha256_n24", "shake256_n16"):
+            groups.append(walk_group("c07/%s/h2h5-all-leaves" % alg, alg, [(4, 2), (2 if N_OF[alg] > 16 else 4, 5)], list(range(32, 64)), [5, 20]))
         if not quick:
             for w in (1, 2, 8):
                 groups.append(walk_group("c07/%s/h5w%d" % (alg, w), alg, [(w, 5)], [0, 9, 30, 31], [16, 56, 300]))
@@ -144,6 +147,8 @@ def c01_phases(ctx):
         g = walk_group("c01/%s/seed-tail" % alg, alg, [(w1, 2), (w0, 2)], [0, 7, 15], [21])
         g["cmds"][0]["seed_tail"] = {"rand": 32, "tag": "c01/tail/%s" % alg}
         groups.append(g)
+        # messages around and beyond 64 KiB (a 16-bit length somewhere in the hashing path would show here)
+        groups.append(walk_group("c01/%s/bigmsg" % alg, alg, [(w2, 2)], [0, 1, 2, 3], [65535, 65536, 70000, 131071 if not quick else 65537]))
         groups.append(walk_group("c01/%s/8lvl" % alg, alg, [(4, 2), (2, 2)] * 4,
                                  [0, 3, 4, 255, 256, (1 << 16) - 1], [7]))
         if ai == 0:
@@ -231,6 +236,31 @@ def mutation_cmds(alg, params, lay, quick, tag):
         if f["len"] == 4:
             for hv in HEADER_VALUES[:12] + ["ffffffff"]:
                 V(M, S, {"mut": P, "kind": "set", "off": f["off"], "with": hv}, "pk_header_set", field=f["name"], value=hv)
+    # alterations that cancel in a FOLDED comparison (xor / sum over words, prefix or suffix only, permutation-insensitive):
+    # the root must be compared for equality, byte by byte
+    root = [f for f in lay["pk_fields"] if f["name"] == "pub_root"][0]
+    ro, rl = root["off"], root["len"]
+
+    def P2(muts, cls, **kw):
+        e = P
+        for m in muts:
+            e = dict(m, mut=e)
+        V(M, S, e, cls, **kw)
+    for dist in (1, 2, 4, 8, 12, 16):
+        for i in (0, 3, rl - dist - 1):
+            if 0 <= i and i + dist < rl:
+                P2([{"kind": "flip", "off": ro + i, "bit": 0}, {"kind": "flip", "off": ro + i + dist, "bit": 0}], "pk_root_two_equal_flips", dist=dist, at=i)
+                P2([{"kind": "flip", "off": ro + i, "bit": 7}, {"kind": "flip", "off": ro + i + dist, "bit": 7}], "pk_root_two_equal_flips", dist=dist, at=i, bit=7)
+    for i in range(0, rl, 8):
+        pass
+    V(M, S, {"xor": P, "off": ro, "len": rl, "byte": 255}, "pk_root_inverted")
+    V(M, S, {"xor": P, "off": ro, "len": rl, "byte": 1}, "pk_root_every_byte_xor_1")
+    V(M, S, {"xor": P, "off": ro, "len": rl // 2, "byte": 255}, "pk_root_first_half_inverted")
+    V(M, S, {"xor": P, "off": ro + rl // 2, "len": rl - rl // 2, "byte": 255}, "pk_root_second_half_inverted")
+    V(M, S, {"rotl": P, "off": ro, "len": rl, "by": 1}, "pk_root_rotated_one_byte")
+    V(M, S, {"rotl": P, "off": ro, "len": rl, "by": 8}, "pk_root_rotated_eight_bytes")
+    V(M, S, {"addsub": P, "off": ro, "dist": 8}, "pk_root_plus_one_minus_one", dist=8)
+    V(M, S, {"addsub": P, "off": ro + 1, "dist": 4}, "pk_root_plus_one_minus_one", dist=4)
     # the same seed and parameters under the OTHER hash family of the same output length
     V(M, slot("xsig"), P, "sig_other_hash_family")
     V(M, slot("xsig"), slot("xpk"), "sig_and_pk_other_hash_family")
@@ -885,6 +915,11 @@ def c12_phases(ctx):
                           "meta": {"family": "random"}} for i in range(20 if s == 0 else 0)]
                 groups.append({"name": "c12/%s/w%d/%d" % (alg, w, s), "cmds": cmds, "cost": 0.3 + len(cmds) * 0.004 * (8 // w)})
     groups += high_checksum_groups(ctx)
+    # END TO END for every (hash, w): the chain positions of released signatures (byte-exact signatures pin them), whatever
+    # function the signer computes them with
+    for alg in ALGS:
+        for w in (1, 2, 4, 8):
+            groups.append(walk_group("c12/e2e/%s/w%d" % (alg, w), alg, [(w, 2)], [0, 1, 2, 3] if not quick else [1, 2], [0, 33, 7, 64]))
     ctx["digest_space"] = sizes
     return [{"tag": "c12", "groups": groups,
              "space": "parameter table for 6 hashes x 4 types; digests enumerated by GenDigests.tla: every byte position x byte value, every attainable checksum value, extremes, random"}]
@@ -981,6 +1016,10 @@ def c13_phases(ctx):
             groups.append(walk_group("c13/e2e/%s/10-2" % alg, alg, [(8, 10), (4, 2)], [3, 4, 4095], [3], light=True))
         elif ai == 0:
             groups.append(walk_group("c13/e2e/%s/10-2" % alg, alg, [(4, 10), (4, 2)], [3, 4, 1024, 4095], [3], light=True))
+    # the successor rule through the in-memory key (SignerMut): the last leaves, the wiped state after them
+    for ai, alg in enumerate(ALGS if not quick else ALGS[1::3]):
+        groups.append(lifetime_walk("c13/mem-end/%s/h5" % alg, alg, [(4, 5)], ["accept"], api="mem", start=32 - 4))
+        groups.append(lifetime_walk("c13/mem-end/%s/h5h2" % alg, alg, [(2, 5), (4, 2)], ["accept"], api="mem", start=128 - 6))
     return [{"tag": "c13", "groups": groups,
              "space": "height tuples (all short ones + VERIF_SEED-sampled longer ones + tall lists) x boundary counters from MC_Arith!BoundaryCtrs + random; "
                       "end to end through the leaf-index fields of signatures for mixed-height shapes"}]
@@ -1082,6 +1121,30 @@ def c10_phases(ctx):
                 region = "marker" if b < 8 else "level_word" if b < 32 else "mac" if b >= nbits - 8 * n else "data"
                 cmds += use({"mut": slot("aux"), "kind": "flip", "off": b // 8, "bit": 7 - b % 8}, "valid_bit_flipped", both=(b % 16 == 0), bit=b, region=region)
             groups.append({"name": "c10/%s/bitflip/%d" % (alg, s), "cmds": cmds, "cost": 3 + 0.03 * len(cmds) * (3 if w == 8 else 1)})
+    # EVEN-height top trees cache the even levels (h, h-2, ..., 2): an H2 top tree (one cached level of four nodes) for every
+    # hash - fresh fill and layout, every byte of the buffer flipped once, other seed, truncation around the MAC
+    for ai, alg in enumerate(ALGS):
+        n = N_OF[alg]
+        w = [4, 2, 8, 4, 1, 2][ai]
+        params = [(w, 2)] if ai % 2 else [(w, 2), (4, 2)]
+        full = aux_full_len(alg, 2)
+        sd = seed_hex("c10/even/%s" % alg, alg)
+        cmds = [cmd_keygen(alg, params, sd, aux={"rep": full + 9, "byte": 0}, out={"sk": "sk", "pk": "pk", "aux": "aux"}, meta={"class": "fresh_zero_roomy"}),
+                cmd_keygen(alg, params, seed_hex("c10/even/%s/o" % alg, alg), aux={"rep": full, "byte": 0}, out={"sk": "osk", "aux": "oaux"}, meta={"class": "fresh_zero_exact"})]
+        total = lifetime_of(params)
+        for b in range(0, full, 1 if not quick else 3):
+            a = {"mut": slot("aux"), "kind": "flip", "off": b, "bit": (b * 5) % 8}
+            region = "level_word" if b < 4 else "mac" if b >= full - n else "data"
+            meta = {"class": "valid_bit_flipped", "byte": b, "region": region, "top": "H2"}
+            cmds.append(cmd_sign(alg, key_at("sk", (b * 7) % total), msg_hex("c10/even/m", 11), aux=a, meta=meta))
+            if b % 2 == 0:
+                cmds.append(cmd_keygen(alg, params, sd, aux=a, out={"sk": "x"}, meta=meta))
+        for cls, a in (("valid", slot("aux")), ("valid_other_seed", slot("oaux")),
+                       ("valid_truncated", {"mut": slot("aux"), "kind": "trunc", "len": full - 1}),
+                       ("mac_zeroed", {"mut": slot("aux"), "kind": "set", "off": full - n, "with": {"rep": n, "byte": 0}})):
+            cmds.append(cmd_sign(alg, key_at("sk", 1), "e0", aux=a, meta={"class": cls, "top": "H2"}))
+            cmds.append(cmd_keygen(alg, params, sd, aux=a, out={"sk": "x"}, meta={"class": cls, "top": "H2"}))
+        groups.append({"name": "c10/%s/even-top" % alg, "cmds": cmds, "cost": 2 + 0.02 * len(cmds) * (3 if w == 8 else 1)})
     if not quick:
         # an H10 top tree (cached levels 10, 8, 6, 4, 2) for the cheapest hash
         alg = "sha256_n16"
@@ -1092,6 +1155,13 @@ def c10_phases(ctx):
             cmds.append(cmd_keygen(alg, [(8, 10)], sd, aux={"rep": ln, "byte": 0}, out={"sk": "x"}, meta={"class": "fresh_zero", "len": ln}))
         for c in (0, 513, 1023):
             cmds.append(cmd_sign(alg, key_at("sk", c), "bb", aux=slot("aux"), meta={"class": "valid"}, light=True))
+        # one bit flipped inside every cached level (2, 4, 6, 8, 10), in the level word and in the MAC
+        offs = [1, 4 + 5, 4 + 16 * 4 + 7, 4 + 16 * (4 + 16) + 3, 4 + 16 * (4 + 16 + 64) + 11, 4 + 16 * (4 + 16 + 64 + 256) + 100, full - 3]
+        for j, off in enumerate(offs):
+            a = {"mut": slot("aux"), "kind": "flip", "off": off, "bit": j % 8}
+            cmds.append(cmd_sign(alg, key_at("sk", 37 * j), "bc", aux=a, meta={"class": "valid_bit_flipped", "top": "H10", "off": off}, light=True))
+            cmds.append(cmd_verify(alg, "bc", slot("sig"), slot("pk")))
+            cmds.append(cmd_keygen(alg, [(8, 10)], sd, aux=a, out={"sk": "x"}, meta={"class": "valid_bit_flipped", "top": "H10", "off": off}))
         groups.append({"name": "c10/h10", "cmds": cmds, "cost": 400})
     return [{"tag": "c10", "groups": groups,
              "space": "buffer lengths 0..full+n (fresh and truncated), content classes (garbage, other seed, other parameters, padded, all ones, left by signing), "
@@ -1330,9 +1400,11 @@ def c14_variant_groups(levels, heights, ws, vi, quick):
 
 def c14_phases(ctx):
     quick = ctx["tier"] == "quick"
-    configs = [(1, [5], [4]), (2, [5, 10], [4, 2]), (3, [5, 5, 5], [8, 8, 8])]
+    # per-level limits in ascending AND descending order (a build script that looks at the first / last entry only, or
+    # compares the entries as text, computes wrong buffer sizes for one of them)
+    configs = [(1, [5], [4]), (2, [5, 10], [4, 2]), (3, [10, 5, 5], [2, 8, 4])]
     if not quick:
-        configs += [(2, [10, 5], [2, 4]), (4, [5, 10, 5, 5], [1, 2, 4, 8]), (1, [25], [1]), (2, [5, 5], [8, 8]), (5, [5] * 5, [4] * 5), (6, [15, 10, 5, 5, 5, 5], [2, 2, 4, 4, 8, 8]),
+        configs += [(3, [5, 5, 5], [8, 8, 8]), (2, [10, 5], [2, 4]), (4, [5, 10, 5, 5], [1, 2, 4, 8]), (1, [25], [1]), (2, [5, 5], [8, 8]), (5, [5] * 5, [4] * 5), (6, [15, 10, 5, 5, 5, 5], [2, 2, 4, 4, 8, 8]),
                     (7, [5] * 7, [8] * 7), (8, [10, 5, 5, 5, 5, 5, 5, 5], [4] * 8), (3, [20, 15, 10], [1, 2, 4]), (2, [5, 25], [8, 1])]
     phases = []
     for vi, (levels, heights, ws) in enumerate(configs):
@@ -1341,7 +1413,25 @@ def c14_phases(ctx):
                        "controls": vi == 0,
                        "space": "build %s: lists inside the limits (keygen/sign/verify/lifetime/aux/exhaust) and just outside (one level too many, "
                                 "one height step too tall, one w step too small per level)" % v.name})
-    # the default build validates against the same specification: identical keys and signatures by construction
+    # the DEFAULT build: its limits are "8 levels, any height, any w" plus the 65535-byte signature container - lists beyond
+    # them (nine levels; eight levels of W1 with a 32-byte hash, also when they arrive in a key blob) are refused
+    groups = []
+    for alg in ("sha256_n32", "shake256_n32"):
+        n = 32
+        big = (bytes(8) + bytes([0x11] * 8) + det_bytes("c14/big/%s" % alg, n)).hex()
+        meta = {"class": "beyond_limits", "how": "signature_longer_than_65535"}
+        cmds = [cmd_keygen(alg, [(1, 2)] * 8, seed_hex("c14/def/%s" % alg, alg), out={"sk": "x", "pk": "y"}, meta=meta),
+                cmd_keygen(alg, [(8, 2)] * 9, seed_hex("c14/def/%s" % alg, alg), out={"sk": "x", "pk": "y"}, meta={"class": "beyond_limits", "how": "nine_levels"}),
+                cmd_sign(alg, big, "0c14", meta=meta), cmd_sign(alg, big, "0c14", meta=meta, plan="reject"), cmd_lifetime(alg, key=big, meta=meta),
+                {"op": "load", "alg": alg, "mem": "mbig", "key": big, "meta": meta},
+                cmd_sign(alg, None, "0c14", api="mem", mem="mbig", meta=meta), cmd_lifetime(alg, mem="mbig", meta=meta)]
+        # ... while the longest list that fits (seven levels of W1) is fully usable
+        g = walk_group("c14/def/%s/7xw1" % alg, alg, [(1, 2)] * 7, [0, (1 << 14) - 1], [9], light=True)
+        groups.append({"name": "c14/def/%s/beyond" % alg, "cmds": cmds, "cost": 2.0})
+        groups.append(g)
+    phases.append({"tag": "c14-default-build", "variant": None, "groups": groups, "controls": False,
+                   "space": "default build: lists beyond its limits (nine levels, signatures longer than 65535 bytes - as parameter list and as key blob) "
+                            "refused; the longest list within them usable"})
     return phases
 
 
@@ -1449,6 +1539,9 @@ def c16_phases(ctx):
             for fill in fills:
                 cmds.append({"op": "hook", "hook": "zeroize", "alg": alg, "type_name": ty, "fill": fill})
                 cmds.append({"op": "hook", "hook": "drop", "alg": alg, "type_name": ty, "fill": fill})
+        # a Seed made by the public constructor from a 32-byte array (all 32 bytes are the caller's secret), dropped
+        for fill in fills:
+            cmds.append({"op": "hook", "hook": "drop", "alg": alg, "type_name": "SeedFromArray", "fill": fill})
         groups.append({"name": "c16/%s/probes" % alg, "cmds": cmds, "cost": 0.3})
     # exhaustion histories: the key handed to the callback by the last signature holds no seed byte
     cyc = [["accept"], ["reject", "accept"], ["crash_after", "accept"]]
@@ -1457,8 +1550,9 @@ def c16_phases(ctx):
         if not quick:
             groups.append(lifetime_walk("c16/%s/exhaust2" % alg, alg, [(4, 2), ([1, 2, 4, 8][(ai + 1) % 4], 2)], cyc[(ai + 1) % 3]))
     # the wipe decision at the LAST leaf for shapes no walk can exhaust (total heights up to 200): arithmetic accessor
-    groups += arith_groups(ctx, True)[:(4 if quick else 40)]
-    return [{"tag": "c16", "groups": groups, "trace_module": "TraceApi", "trace_cfg": "TraceApi.cfg",
+    arith = arith_groups(ctx, True)[:(4 if quick else 40)]
+    return [arith_phase(ctx, "c16", arith),
+            {"tag": "c16", "groups": groups, "trace_module": "TraceApi", "trace_cfg": "TraceApi.cfg",
              "space": "5 secret-bearing types x {zeroize, drop in place} x sentinel bytes x 6 hashes; exhaustion histories (wiped key bytes)"}]
 
 
@@ -1574,10 +1668,15 @@ REGISTRY["C09"]["phases"] = c09_phases
 
 
 # ---- C05 also owns the pure accounting arithmetic for tall multi-level shapes (hook, no trees) ------
+def arith_phase(ctx, tag, groups):
+    """the pure counter arithmetic has no protocol content: its events are judged by the (much cheaper) stateless TraceBytes"""
+    return {"tag": tag + "-arith", "groups": groups, "controls": False, "tlc_timeout": 7200,
+            "space": "counter / lifetime / successor arithmetic through the accessor for height tuples x boundary counters (MC_Arith!BoundaryCtrs)"}
+
+
 def c05_phases(ctx):
     ph = api_phases(ctx, "c05")
-    ph[0]["groups"] += arith_groups(ctx, ctx["tier"] == "quick")
-    ph[0]["space"] += "; counter/lifetime arithmetic through the hook for height tuples x boundary counters (MC_Arith!BoundaryCtrs)"
+    ph.append(arith_phase(ctx, "c05", arith_groups(ctx, ctx["tier"] == "quick")))
     return ph
 
 
@@ -1591,12 +1690,34 @@ REGISTRY["C05"]["design"] = c05_design
 
 def c03_phases(ctx):
     ph = api_phases(ctx, "c03")
-    ph[0]["groups"] += arith_groups(ctx, True)[:(6 if ctx["tier"] == "quick" else 60)]
-    ph[0]["space"] += "; counter successor / last-leaf arithmetic for tall shapes through the accessor"
+    ph.append(arith_phase(ctx, "c03", arith_groups(ctx, True)[:(6 if ctx["tier"] == "quick" else 60)]))
     return ph
 
 
-REGISTRY["C03"]["phases"] = c03_phases
+def c03_phases_with_sign_mut(ctx):
+    ph = c03_phases(ctx)
+    if ctx["tier"] != "quick":
+        groups = []
+        for ai, alg in enumerate(ALGS):
+            n = N_OF[alg]
+            name = "c03/signmut/%s" % alg
+            params = [(4, 2), ([2, 4, 8, 1][ai % 4], 2)]
+            cmds = [dict(cmd_keygen(alg, params, seed_hex(name, alg), out={"sk": "store_k1", "pk": "pk_k1"}), k="k1")]
+            # consecutive sign_mut calls share the upper-level one-time key: it must sign the SAME content every time
+            for c in (0, 1, 2, 3, 4, 5):
+                m = {"cat": [msg_hex("%s/%d" % (name, c), 17), {"rep": n, "byte": 0}]}
+                cm = cmd_sign_mut(alg, key_at("store_k1", c), m, out={"sig": "sig", "msg_out": "mo"})
+                cm["k"] = "k1"
+                cmds.append(cm)
+                cmds.append(cmd_verify(alg, slot("mo"), slot("sig"), slot("pk_k1")))
+            groups.append({"name": name, "cmds": cmds, "cost": 3.0})
+        ph.append({"tag": "c03-sign-mut", "variant": fv_variant(2, 64), "groups": groups, "controls": False,
+                   "trace_module": "TraceApi", "trace_cfg": "TraceApi.cfg",
+                   "space": "fast_verify build: sign_mut calls that share upper-level one-time keys (NoReuse over (I, q) -> (C, content))"})
+    return ph
+
+
+REGISTRY["C03"]["phases"] = c03_phases_with_sign_mut
 
 
 # ---- the repository's command line example (lms-demo): file conventions, validated by the same judges ------
